@@ -154,3 +154,44 @@ func VerifHarness_C15_IntegerQuantityToProto() {
 }
 
 var _ = big.NewInt
+
+// C15-L5e: a System DateTime of every precision a literal can have - the hour and minute precisions included, which a
+// FHIR dateTime cannot express - becomes a valid element: its precision is one of the enum's, it denotes the literal's
+// instant, and reading it back gives a value with a rendering (the element hides no broken state).
+func VerifHarness_C15_DateTimeOfEveryPrecisionToProto() {
+	hh, mi := verifrt.NondetIntRange("hour", 0, 23), verifrt.NondetIntRange("minute", 0, 59)
+	two := func(v int) string { return string([]byte{byte('0' + v/10), byte('0' + v%10)}) }
+	zone := []string{"", "Z", "+02:00"}[verifrt.Choose("zone", 3)]
+	var text string
+	wantSec := int64(1577923200) // 2020-01-02T00:00:00Z
+	switch verifrt.Choose("precision", 7) {
+	case 0:
+		text, wantSec, zone = "2020T", 1577836800, ""
+	case 1:
+		text, wantSec, zone = "2020-01T", 1577836800, ""
+	case 2:
+		text, zone = "2020-01-02T", ""
+	case 3:
+		text, wantSec = "2020-01-02T"+two(hh)+zone, wantSec+int64(hh)*3600
+	case 4:
+		text, wantSec = "2020-01-02T"+two(hh)+":"+two(mi)+zone, wantSec+int64(hh)*3600+int64(mi)*60
+	case 5:
+		text, wantSec = "2020-01-02T"+two(hh)+":"+two(mi)+":07"+zone, wantSec+int64(hh)*3600+int64(mi)*60+7
+	default:
+		text, wantSec = "2020-01-02T"+two(hh)+":"+two(mi)+":07.000"+zone, wantSec+int64(hh)*3600+int64(mi)*60+7
+	}
+	if zone == "+02:00" {
+		wantSec -= 7200
+	}
+	d, err := ParseDateTime(text)
+	verifrt.Assert(err == nil, "literal-of-this-precision-is-accepted")
+	if err != nil {
+		return
+	}
+	e := d.ToProtoDateTime()
+	verifrt.Assert(e.Precision != dtpb.DateTime_PRECISION_UNSPECIFIED, "element-has-a-precision")
+	verifrt.Assert(e.ValueUs == wantSec*1000000, "element-denotes-the-literal-instant")
+	back, err2 := DateTimeFromProto(e)
+	verifrt.Assert(err2 == nil && len(back.String()) >= 4, "element-reads-back-as-a-value-with-a-rendering")
+	verifrt.Reach("end")
+}
